@@ -1142,10 +1142,46 @@ func (fb *FB) symRange(k interface{}) (int64, int64) {
 
 // prove tries to establish t >= 0 from the facts (each fact >= 0) and symbol ranges.
 func (fb *FB) prove(t Lin, facts []Lin, depth int) bool {
-	return fb.prove2(t, facts, depth, 2)
+	return fb.prove2(t, fb.withIntrinsic(t, facts), depth, 2)
+}
+
+// withIntrinsic adds facts that hold by the meaning of a symbol: for q = n / k (k a positive constant, n >= 0):
+// n - k*q >= 0 and k*q + (k-1) - n >= 0 (rounding idioms such as ((x+4095)/4096)*4096 >= x follow).
+func (fb *FB) withIntrinsic(t Lin, facts []Lin) []Lin {
+	out := facts
+	seen := map[ssa.Value]bool{}
+	var visit func(l Lin, d int)
+	visit = func(l Lin, d int) {
+		for k := range l.T {
+			bo, ok := k.(*ssa.BinOp)
+			if !ok || bo.Op != token.QUO || seen[bo] || d > 3 {
+				continue
+			}
+			seen[bo] = true
+			kv := fb.lin(bo.Y)
+			if !kv.isConst() || kv.C <= 0 || kv.C > 1<<20 {
+				continue
+			}
+			if lo, _ := fb.rng(bo.X); lo < 0 {
+				continue
+			}
+			n := fb.lin(bo.X)
+			q := linSym(ssa.Value(bo))
+			out = append(append([]Lin{}, out...), n.add(q, -kv.C), q.scale(kv.C).add(linConst(kv.C-1), 1).add(n, -1))
+			visit(n, d+1)
+		}
+	}
+	visit(t, 0)
+	for _, f := range facts {
+		visit(f, 1)
+	}
+	return out
 }
 
 func (fb *FB) prove2(t Lin, facts []Lin, depth, split int) bool {
+	if hasQuo(t) {
+		facts = fb.withIntrinsic(t, facts)
+	}
 	// eliminate symbols by their ranges
 	rest := Lin{C: t.C}
 	for k, coef := range t.T {
@@ -1629,4 +1665,13 @@ func (c *Ctx) paramNonneg(p *ssa.Parameter) bool {
 	}
 	m[p] = 2
 	return true
+}
+
+func hasQuo(t Lin) bool {
+	for k := range t.T {
+		if bo, ok := k.(*ssa.BinOp); ok && bo.Op == token.QUO {
+			return true
+		}
+	}
+	return false
 }
